@@ -31,7 +31,7 @@ MERGE = (
 ALPHA = {
     "create_t1": ("create table t1 (a int, b varchar(5)) comment = 'c1'", {"!t1"}, {"t1"}, set()),
     "create_plain": ("create table plain (x int)", {"!plain"}, {"plain"}, set()),
-    "insert_t1": ("insert into t1 values (1, 'x')", {"t1"}, {"rows"}, set()),
+    "insert_t1": ("insert into t1 (a, b) values (1, 'x')", {"t1"}, {"rows"}, set()),
     "update_t1": ("update t1 set b = 'y' where a = 1", {"t1", "rows"}, set(), set()),
     "merge_t1": (MERGE, {"t1"}, {"rows"}, set()),
     "view_v1": ("create view v1 comment = 'cv' as select a, b::varchar(4) as sb from t1", {"t1", "!v1"}, {"v1"}, set()),
@@ -46,7 +46,7 @@ ALPHA = {
     # statements that FAIL (caught by the caller) - nothing changes, and what follows must still be committed
     "failing_select": ("select * from table_that_is_missing", set(), set(), set()),
     "executemany_fail": ("EM:insert into table_that_is_missing values (%s)|[[1],[2]]", set(), set(), set()),
-    "executemany_ok": ("EM:insert into t1 values (%s, %s)|[[5,\"e\"],[6,\"f\"]]", {"t1"}, {"rows"}, set()),
+    "executemany_ok": ("EM:insert into t1 (a, b) values (%s, %s)|[[5,\"e\"],[6,\"f\"]]", {"t1"}, {"rows"}, set()),
     "begin": ("begin", {"!tx"}, {"tx"}, set()),
     "commit": ("commit", {"tx"}, set(), {"tx"}),
     "rollback": ("rollback", {"tx"}, set(), {"tx"}),
